@@ -16,11 +16,48 @@ def write_files(root, files):
 _cell_n = [0]
 
 
+_DEF_RE = None
+
+
 def exec_cell(module, src):
-    _cell_n[0] += 1
-    fn = "<verif-cell-%d>" % _cell_n[0]
+    """
+    Execute one notebook-style cell in the module's namespace. A cell that defines a function keeps ITS file name when
+    it is executed again with edited text (as a re-run cell / a reloaded source file does): the new function then has
+    the same co_filename and first line as the one it replaces. Other statements get a fresh name each time.
+    """
+    global _DEF_RE
+    import re
+    if _DEF_RE is None:
+        _DEF_RE = re.compile(r"^def\s+([A-Za-z_][A-Za-z_0-9]*)\s*\(", re.M)
+    m_ = _DEF_RE.search(src)
+    if m_:
+        fn = "<verif-cell-%s.%s>" % (module.__name__, m_.group(1))
+    else:
+        _cell_n[0] += 1
+        fn = "<verif-cell-%d>" % _cell_n[0]
     linecache.cache[fn] = (len(src), None, src.splitlines(True), fn)
     exec(compile(src, fn, "exec"), module.__dict__)
+
+
+def redefine_from_file(module, pkgroot, files, names):
+    """
+    The module's source file is overwritten with the edited text and the definitions `names` are executed again from
+    it, compiled under the file's own name at their own line numbers (what re-running a definition from an edited file
+    does): a function whose text kept its position has the same co_filename / co_firstlineno as the one it replaces.
+    """
+    import ast
+    write_files(pkgroot, files)
+    path = module.__file__
+    linecache.checkcache(path)
+    with open(path) as f:
+        text = f.read()
+    linecache.cache[path] = (len(text), None, text.splitlines(True), path)
+    tree = ast.parse(text, path)
+    for name in names:
+        nodes = [n for n in tree.body if (isinstance(n, ast.FunctionDef) and n.name == name)
+                 or (isinstance(n, ast.Assign) and any(isinstance(t, ast.Name) and t.id == name for t in n.targets))]
+        for node in nodes:
+            exec(compile(ast.Module(body=[node], type_ignores=[]), path, "exec"), module.__dict__)
 
 
 def modules_from_cells(pkg, modules, cells):
@@ -85,6 +122,9 @@ def run_segment(spec):
     for step in spec["steps"]:
         for mname, src in step.get("cells", []):
             exec_cell(mods[mname], src)
+        if step.get("redef"):
+            for mname in sorted({m_ for m_, _ in step["redef"]}):
+                redefine_from_file(mods[mname], spec["pkgroot"], step["files"], [n for m_, n in step["redef"] if m_ == mname])
         verif_rt.take()
         results = {}
         versions = {}
